@@ -312,6 +312,12 @@ impl<T: Copy + Number + std::fmt::Debug> Sparse<T> {
 }
 
 impl Sparse<f64> {
+    // A component that the matrix never reads ( an empty column ) can overflow without
+    // showing in b - A x, so success also asks for a finite x
+    fn all_finite( x: &Vector<f64> ) -> bool {
+        x.vec.iter().all( |v| v.is_finite() )
+    }
+
     /// Solve the system of equations Ax=b using the biconjugate gradient method 
     /// with a specified maximum number of iterations and tolerance.
     /// itol = 1: relative residual norm
@@ -350,7 +356,7 @@ impl Sparse<f64> {
         // Initial residual test and zero-norm guard (as in the other solvers)
         if bnrm == 0.0 { bnrm = 1.0; }
         err = if itol == 1 { r.norm_2() / bnrm } else { z.norm_2() / bnrm };
-        if err <= tol { return Ok( 0 ); }
+        if err <= tol && Self::all_finite( x ) { return Ok( 0 ); }
         let mut rho_2 = 1.0;
         let mut iter: usize = 0;
         while iter < max_iter {
@@ -383,7 +389,7 @@ impl Sparse<f64> {
                 self.identity_preconditioner( &r, &mut z );
                 if itol == 1 { err = r.norm_2() / bnrm; }
                 if itol == 2 { err = z.norm_2() / bnrm; }
-                if err <= tol { return Ok( iter ); }
+                if err <= tol && Self::all_finite( x ) { return Ok( iter ); }
             }
         }
         Err(err)
@@ -420,7 +426,7 @@ impl Sparse<f64> {
         let rtilde = r.clone();
         if normb == 0.0 { normb = 1.0; }
         resid = r.norm_2() / normb;
-        if resid <= tol { return Ok( 0 ); }
+        if resid <= tol && Self::all_finite( x ) { return Ok( 0 ); }
 
         for i in 1..=max_iter {
             rho_1 = rtilde.dot( &r );
@@ -443,7 +449,7 @@ impl Sparse<f64> {
                 // with the true residual and carry on from it
                 s = b.clone() - self.multiply( x );
                 resid = s.norm_2() / normb;
-                if resid <= tol { return Ok( i ); }
+                if resid <= tol && Self::all_finite( x ) { return Ok( i ); }
             }
             //shat = s; //could have preconditioner here shat = M.solve(s);
             self.identity_preconditioner( &s, &mut shat );
@@ -456,7 +462,7 @@ impl Sparse<f64> {
             if resid < tol {
                 r = b.clone() - self.multiply( x );
                 resid = r.norm_2() / normb;
-                if resid < tol { return Ok( i ); }
+                if resid < tol && Self::all_finite( x ) { return Ok( i ); }
             }
             if omega == 0.0 { return Err( resid ); }
         }
@@ -490,7 +496,7 @@ impl Sparse<f64> {
 
         if normb == 0.0 { normb = 1.0; }
         resid = r.norm_2() / normb;
-        if resid <= tol { return Ok( 0 ); }
+        if resid <= tol && Self::all_finite( x ) { return Ok( 0 ); }
 
         for i in 1..=max_iter {
             //z = r; //could have preconditioner here z = M.solve(r);
@@ -512,7 +518,7 @@ impl Sparse<f64> {
                 // confirm with the true residual and carry on from it (see solve_bicg)
                 r = b.clone() - self.multiply( x );
                 resid = r.norm_2() / normb;
-                if resid <= tol { return Ok( i ); }
+                if resid <= tol && Self::all_finite( x ) { return Ok( i ); }
             }
             rho_1 = rho;
         }
@@ -565,7 +571,7 @@ impl Sparse<f64> {
         r = b.clone() - self.multiply( x );
         if normb == 0.0 { normb = 1.0; }
         resid = r.norm_2() / normb;
-        if resid <= tol { return Ok( 0 ); }
+        if resid <= tol && Self::all_finite( x ) { return Ok( 0 ); }
 
         v_tld = r.clone();
         y = v_tld.clone(); // Could have preconditioner here
@@ -647,7 +653,7 @@ impl Sparse<f64> {
                 // exactly zero), is meaningless: confirm with the true residual and carry on from it
                 r = b.clone() - self.multiply( x );
                 resid = r.norm_2() / normb;
-                if resid <= tol { return Ok( i ); }
+                if resid <= tol && Self::all_finite( x ) { return Ok( i ); }
             }
         }
         Err(resid)
